@@ -239,3 +239,12 @@ Definition oracle_duration_accepts (c : duration_sp * str * option (bool * list 
          && ostr_eqb sec_text (secs_text (du_sp_s sp))
      | None => false
      end.
+
+(* every g* spelling is accepted with the XSD components (judged on the implementation) *)
+Definition oracle_period_accepts (c : period_sp * str * option (list (option Z))) : bool :=
+  let '(sp, s, obs) := c in
+  negb (wf_period sp && str_eqb s (lex_period sp))
+  || match obs with
+     | Some l => let '(y, m, d, o) := val_period sp in loZ_eqb l [y; m; d; o]
+     | None => false
+     end.
